@@ -55,6 +55,21 @@ CHECKS = {
                      "for a host assignment; registrations survive reset.",
                 note="a continue returning Err is not required to notify; polling sees only committed values",
                 technique="TLA+ trace validation (InkHostTrace + InkHostRules) with observers added/removed at random points"),
+    "C10": dict(level=MC, ref="5/C10",
+                text="TLC enumerates every interleaving of the flows' host operations (spec FlowSched); each schedule is "
+                     "replayed on the real runtime (plain, with save + load into a fresh twin, with remove_flow) and "
+                     "validated against InkHostAbs with one abstract position per flow: what the current flow shows equals "
+                     "its solo base run, every flow's own globals and counts equal that flow's solo run.",
+                note="flows generated disjoint (own knot, own variable), no turn-index reads; base runs of the same build",
+                technique="TLC schedule enumeration (FlowSched) + TLA+ trace validation (InkHostTrace/InkHostAbs, per-flow positions)"),
+    "C12": dict(level=MC, ref="5/C12",
+                text="TLC validates bound runs against the fallback run of the same program (transcript equality checks argument "
+                     "values, order and use of the result) and the rule ExtCountRule (InkHostRules): cumulative host calls of "
+                     "an unsafe function equal the executed calls counted by the Ink fallback, never before the marker line "
+                     "preceding the call site was delivered; a safe function at least as often; no host call of an unsafe "
+                     "function from inside strings; late binding after a failed first continue.",
+                note="host functions and fallbacks compute the same pure function; unsafe runs are compared turn by turn",
+                technique="TLA+ trace validation (InkHostTrace + InkHostRules) of bound vs fallback runs"),
 }
 
 NOT_YET = {}
